@@ -131,21 +131,42 @@ def run_e2e(report, n_fonts, rng, formats=("glyf_colr_1", "cff_colr_1", "cff2_co
         srcs = [(build.filename_for((0x1F600 + k,)), t, (0x1F600 + k,)) for k, t in enumerate(texts)]
         for metrics in (dict(upem=1024, ascender=896, descender=-128, width=1024), dict()):
             plans.append((dict(color_format="glyf_colr_1", reuse_tolerance=tol, **metrics), srcs, None))
+    # gradient stops as SVG allows them: out of [0, 1] (clamped by SVG) and out of order (each raised to the one before), F26
+    odd_stops = ('<svg xmlns="http://www.w3.org/2000/svg" viewBox="0 0 100 100"><defs>'
+                 '<linearGradient id="a" gradientUnits="userSpaceOnUse" x1="10" y1="0" x2="90" y2="0"><stop offset="0" stop-color="#ff0000"/>'
+                 '<stop offset="0.6" stop-color="#00ff00"/><stop offset="0.3" stop-color="#0000ff"/><stop offset="1" stop-color="#ffff00"/></linearGradient>'
+                 '<radialGradient id="b" gradientUnits="userSpaceOnUse" cx="50" cy="70" r="20"><stop offset="-0.5" stop-color="#ff00ff"/>'
+                 '<stop offset="0.5" stop-color="#00ffff"/><stop offset="1.5" stop-color="#000000"/></radialGradient></defs>'
+                 '<path d="M10,10 L90,10 L90,40 L10,40 Z" fill="url(#a)"/><path d="M30,50 L70,50 L70,90 L30,90 Z" fill="url(#b)"/></svg>')
+    plans.append((dict(color_format="glyf_colr_1", upem=1000, ascender=800, descender=-200, width=1000), [(build.filename_for((0x1F600,)), odd_stops, (0x1F600,))], None))
     # the same oracle on fonts built by the real command line (options by flag and by config file, with the
     # values most easily lost on the way to the font-writing step: zeros, false, "reuse off")
     docs, srcs = e2e.gen_sources(rng, n=3)
     plans.append((dict(color_format="glyf_colr_1", upem=1000, ascender=1000, descender=0, width=0, clipbox_quantization=37), srcs, "flag"))
     docs, srcs = e2e.gen_sources(rng, n=2)
     plans.append((dict(color_format="cff_colr_1", output_file="Font.otf", upem=1024, ascender=820, descender=-204, width=0, reuse_tolerance=-1.0, clip_to_viewbox=False), srcs, "file"))
+    # a re-run in a build directory that already holds another font (other art, other options), and a build next to
+    # another configuration whose sources have the same file names in another directory: the font must be this one's
+    from picosvg.svg_transform import Affine2D
+
+    docs, srcs = e2e.gen_sources(rng, n=2)
+    docs0, srcs0 = e2e.gen_sources(rng, n=2)
+    srcs0 = [(a[0],) + tuple(b[1:]) for a, b in zip(srcs, srcs0)]
+    plans.append((dict(color_format="glyf_colr_1", upem=1000, ascender=800, descender=-200, width=0, transform=Affine2D(1, 0, 0, 1, 100, 0)), srcs, "flag",
+                  dict(before=(dict(color_format="glyf_colr_1", upem=1000, ascender=800, descender=-200, width=1200), srcs0))))
+    plans.append((dict(color_format="glyf_colr_1", upem=1000, ascender=800, descender=-200, width=1000), srcs, "file",
+                  dict(companion=(dict(color_format="glyf_colr_1", upem=1000, ascender=800, descender=-200, width=1000), srcs0))))
     for i in range(n_fonts):
         fmt = formats[i % len(formats)]
         cfg_over = e2e.gen_config(rng, fmt)
         docs, srcs = e2e.gen_sources(rng)
         plans.append((cfg_over, srcs, None))
-    for i, (cfg_over, srcs, via) in enumerate(plans):
+    for i, plan in enumerate(plans):
+        cfg_over, srcs, via = plan[:3]
+        extra = plan[3] if len(plan) > 3 else {}
         fmt = cfg_over["color_format"]
         try:
-            font, cfg, picos, data = build.build_cli(cfg_over, srcs, via) if via else build.build_inprocess(cfg_over, srcs)
+            font, cfg, picos, data = build.build_cli(cfg_over, srcs, via, **extra) if via else build.build_inprocess(cfg_over, srcs)
         except Exception as ex:  # a build failure on valid input is a finding of its own
             report_failure(report, f"e2e_build_{i}", dict(kind="e2e", config={k: str(v) for k, v in cfg_over.items()}, sources=[s[1] for s in srcs], error=f"{type(ex).__name__}: {ex}"))
             return
@@ -154,7 +175,7 @@ def run_e2e(report, n_fonts, rng, formats=("glyf_colr_1", "cff_colr_1", "cff2_co
         report.count(("e2e", fmt, tuple(s[1] for s in srcs), str(sorted(cfg_over.items(), key=lambda kv: kv[0]))), n > 0, n)
         report.hist("e2e.format", fmt)
         report.hist("e2e.reuse_tolerance", cfg_over.get("reuse_tolerance", "default"))
-        report.hist("e2e.built_by", "command line, options by " + via if via else "in process")
+        report.hist("e2e.built_by", ("command line, options by " + via + ("".join(", " + k for k in extra))) if via else "in process")
         report.hist("e2e.user_transform", "yes" if "transform" in cfg_over else "no")
         if problems:
             report_failure(report, f"e2e_{i}", dict(kind="e2e", format=fmt, config={k: str(v) for k, v in cfg_over.items()}, problems=problems[:3], sources=[s[1] for s in srcs]))
